@@ -150,6 +150,55 @@ func goSource(text string) string {
 	return "package p\n" + text
 }
 
+// userTextInQuotes: an atom of class USER stands directly between a literal ending with `"` and a literal starting
+// with `"` (the shape `"%s"` filled with free text), anywhere in the sketch.
+func userTextInQuotes(s Sketch) (string, bool) {
+	// the free text may come as one atom, or as the alternative of several (a local assigned twice)
+	userProv := func(part interface{}) (string, bool) {
+		switch v := part.(type) {
+		case Atom:
+			if v.Class == "USER" {
+				return v.Prov, true
+			}
+		case Alt:
+			for _, o := range v.Opts {
+				if len(o) == 1 {
+					if a, ok := o[0].(Atom); ok && a.Class == "USER" {
+						return a.Prov, true
+					}
+				}
+			}
+		}
+		return "", false
+	}
+	for i, p := range s {
+		if prov, isUser := userProv(p); isUser && i > 0 && i+1 < len(s) {
+			prev, ok1 := s[i-1].(Lit)
+			next, ok2 := s[i+1].(Lit)
+			if ok1 && ok2 && strings.HasSuffix(prev.S, `"`) && !strings.HasSuffix(prev.S, `\\"`) && strings.HasPrefix(next.S, `"`) {
+				return prov, true
+			}
+		}
+		switch p := p.(type) {
+		case Star:
+			if pr, ok := userTextInQuotes(p.Body); ok {
+				return pr, true
+			}
+		case Guarded:
+			if pr, ok := userTextInQuotes(p.Body); ok {
+				return pr, true
+			}
+		case Alt:
+			for _, o := range p.Opts {
+				if pr, ok := userTextInQuotes(o); ok {
+					return pr, true
+				}
+			}
+		}
+	}
+	return "", false
+}
+
 // hasAtomClass: some atom of the sketch has the given class; returns its provenance.
 func hasAtomClass(s Sketch, class string) (string, bool) {
 	for _, p := range s {
@@ -269,6 +318,14 @@ func runTPLGo(w *World, r *Result, rel string, maxRep int) (ndecl, ninst int) {
 			r.bad("TPL-6", d.label, cons+": struct tag "+prov, pos, "the text of a struct tag ("+prov+") is written into the generated Go source without strconv.Quote / %q: a tag that contains the quote character it is wrapped in (a back quote inside a raw string, e.g. `doc:\"use `x`\"`) ends the literal early and the generated file does not parse")
 		} else {
 			r.ok("TPL-6", d.label, cons, pos, "no raw struct tag text in this template", false)
+		}
+		// TPL-7: free text of the analysed program (a custom SQL query, a tag value) placed between the double quotes of
+		// a Go string literal of the template, without %q / strconv.Quote: a double quote or a backslash in it ends or
+		// corrupts the literal
+		if prov, raw := userTextInQuotes(d.content); raw {
+			r.bad("TPL-7", d.label, "free text of the analysed program between the double quotes of a generated Go string literal", pos, "the text "+prov+" comes from the analysed program (a custom query, a tag) and is written between the double quotes of a string literal of the generated Go code as it is: a `\"` in it (a quoted SQL identifier) ends the literal and the generated file does not parse; a backslash becomes a Go escape sequence. It has to be written with %q / strconv.Quote")
+		} else {
+			r.ok("TPL-7", d.label, cons, pos, "no free text of the analysed program stands unquoted inside a Go string literal of this template", false)
 		}
 		if prov, bad := emptyInSeparated(d.content); bad {
 			r.bad("TPL-3", d.label, cons+": list "+prov, pos, "the list "+prov+" is pre-sized and filled by a store that is skipped for some elements: the skipped slots stay empty strings and are joined with a comma, producing `a, , b` (a syntax error in the generated Go)")
